@@ -178,6 +178,18 @@ newline"`)
 						"(list (slot-value *fx-empty-inst* 'size) (slot-value *fx-empty-inst* 'tag) (slot-value *fx-empty-inst* 'weight))",
 						"(list (slot-value *fx-t-inst* 'size) (slot-value *fx-t-inst* 'tag))"}},
 			}})
+		// vectors with the fill pointer at every position (none, 0, inside,
+		// equal to the size) reached by every route: make-array, vector-push up
+		// to the capacity, vector-push-extend within the capacity, vector-pop,
+		// adjust-array; as values and as variables of a session (seeded C19e)
+		var vecItems []Item
+		for k, src := range vectorBoundaries {
+			val("vector", src)
+			vecItems = append(vecItems, vectorVarItem(fmt.Sprintf("*fx-vec%d*", k), src))
+		}
+		fixedBlock = append(fixedBlock,
+			Case{Mode: "session", Kind: "session", Margins: []int{70}, Items: vecItems},
+			Case{Mode: "session", Kind: "session", Margins: []int{28}, Items: vecItems[len(vecItems)/2:]})
 		for _, feat := range sessionFeats {
 			// the first one holds nothing but the construct: the smallest witness
 			for j := 0; j < 4; j++ {
@@ -186,6 +198,37 @@ newline"`)
 		}
 	})
 	return fixedBlock
+}
+
+var vectorBoundaries = []string{
+	`(make-array 3 :fill-pointer 0 :initial-contents '(1 2 3))`,
+	`(make-array 3 :fill-pointer 1 :initial-contents '(1 2 3))`,
+	`(make-array 3 :fill-pointer 3 :initial-contents '(1 2 3))`,
+	`(make-array 3 :fill-pointer t :initial-contents '(a "b" :c))`,
+	`(make-array 0 :fill-pointer 0)`,
+	`(make-array 0 :fill-pointer t :adjustable t)`,
+	`(make-array 1 :fill-pointer 1 :initial-element 'x)`,
+	`(make-array 1 :fill-pointer 0 :initial-element 'x)`,
+	`(make-array 3 :element-type 'fixnum :fill-pointer 3 :initial-contents '(1 2 3))`,
+	`(make-array 2 :element-type 'character :fill-pointer t :initial-contents '(#\a #\b))`,
+	`(make-array 2 :element-type 'float :fill-pointer 1 :initial-contents '(0.5 1.5))`,
+	`(make-array 3 :adjustable t :fill-pointer 3 :initial-element 0)`,
+	`(let ((v (make-array 3 :fill-pointer 1 :initial-contents '(1 2 3)))) (vector-push 'a v) (vector-push 'b v) v)`,
+	`(let ((v (make-array 3 :fill-pointer 3 :initial-contents '(1 2 3)))) (vector-push 'a v) v)`,
+	`(let ((v (make-array 3 :fill-pointer 1 :initial-contents '(1 2 3)))) (vector-push-extend 'a v) v)`,
+	`(let ((v (make-array 3 :fill-pointer 2 :initial-contents '(1 2 3)))) (vector-push-extend 'a v) v)`,
+	`(let ((v (make-array 4 :fill-pointer 0 :initial-element nil))) (dotimes (i 4) (vector-push-extend (* i i) v)) v)`,
+	`(let ((v (make-array 3 :fill-pointer 2 :initial-contents '(1 2 3)))) (vector-pop v) v)`,
+	`(let ((v (make-array 3 :fill-pointer 1 :initial-contents '(1 2 3)))) (vector-pop v) v)`,
+	`(let ((v (make-array 3 :fill-pointer 0 :initial-contents '(1 2 3)))) (setf (fill-pointer v) 2) v)`,
+	`(adjust-array (make-array 3 :adjustable t :initial-contents '(1 2 3)) 5 :initial-element 'z :fill-pointer 5)`,
+	`(adjust-array (make-array 3 :adjustable t :initial-contents '(1 2 3)) 5 :initial-element 'z :fill-pointer t)`,
+	`(adjust-array (make-array 4 :fill-pointer 2 :initial-contents '(1 2 3 4)) 2)`,
+	`(adjust-array (make-array 3 :fill-pointer 3 :initial-contents '(1 2 3)) 5 :initial-element 0)`,
+	`(adjust-array (make-array 3 :initial-contents '(1 2 3)) 3 :fill-pointer t)`,
+	`(adjust-array (make-array 3 :fill-pointer 1 :initial-contents '(1 2 3)) 1)`,
+	`(adjust-array (make-array 3 :adjustable t :initial-contents '(1 2 3)) 5 :initial-element 'z)`,
+	`(adjust-array (make-array 3 :adjustable t :initial-contents '(1 2 3)) 1)`,
 }
 
 // deepNest yields a call nested deeply enough to run the pretty printer out
@@ -622,6 +665,9 @@ func execSession(x *fw.Ctx, c Case) {
 			x.Cover("probe-error-in-original:" + c.Items[p.item].Kind)
 		} else {
 			x.Cover("probe-value-in-original:" + c.Items[p.item].Kind)
+		}
+		if c.Items[p.item].Kind == "var" && src == c.Items[p.item].Name {
+			vectorShapes(pa, func(k string) { x.Cover("var-" + k) })
 		}
 		if pa != pb {
 			it := c.Items[p.item]
